@@ -1,5 +1,16 @@
 import CsVerif.Model.C04
-/-! Line-protocol driver for the C04 model and reference (see tools/harness/c04.py for the encoding). -/
+import CsVerif.Model.C04Gen
+import CsVerif.Model.PyUShow
+/-! Line-protocol driver for the C04 model and reference (see tools/harness/c04.py for the encoding).
+
+`g-*` streams: the definitions TRANSLATED from the source of `HttpDataTransform.__init__ / transform / recover`
+(Gen/PyC2T.lean; base64 / getrandbits = the C04 sub-models, Model/C04Gen.lean) on Python values in the notation of
+Model/PyUShow.lean:
+  gi  <steps> <reverse> <build>                                   -> `ok I6[<tsteps>;<rsteps>]`
+  gtr Q|S <steps> <reverse> <build> <c2data> <request> l<masks>   -> `T <request> R ok <c2data>` (recover from the request, or (S) from
+                                                                     `HttpResponse(200, r.headers, b"OK", r.body)`)
+  gr  <steps> <reverse> <build> <http>                            -> `ok <c2data>`
+`pyu <op> <operands>` -> the run-time operations added for C04 (Model/PyU_T04.lean) on operands of all kinds. -/
 namespace C04
 open Proto
 
@@ -161,7 +172,71 @@ def emptyC2 : C2Data := ⟨none, none, none⟩
 def inDomain (p : Ref.Program) (req : Option Req) : Bool :=
   Ref.valid p && (!Ref.usesUri p || (req.getD emptyReq).uri == [])
 
+/-! ### `g-*` / `pyu` streams -/
+
+def classes : List PyU.Cls :=
+  [Gen.PyC2U.HttpRequest, Gen.PyC2U.HttpResponse, Gen.PyC2U.C2Data, Gen.PyC2U.ClientC2Data, Gen.PyC2U.ServerC2Data,
+   Gen.PyC2U.SplitResultBytes, Gen.PyC2T.HttpDataTransform]
+
+def clsOf (cid : Nat) : Option PyU.Cls := classes.find? (·.cid == cid)
+
+def vTok (s : String) : Option PyU.V := PyU.vTok (fun _ => none) clsOf s
+
+def showA (f : α → String) : PyU.PyA α → String
+  | .ok a => "ok " ++ f a
+  | .error (.py e) => "exc " ++ e.name
+  | .error .assertion => "exc AssertionError"
+
+/-- `HttpResponse(status=200, headers=r.headers, reason=b"OK", body=r.body)` of a transformed request -/
+def responseOf (r : PyU.V) : PyU.V :=
+  match PyU.getAttr r "headers", PyU.getAttr r "body" with
+  | .ok h, .ok b => .inst Gen.PyC2U.HttpResponse [.int 200, h, .bytes [79, 75], b, .none]
+  | _, _ => .none
+
+def gstep : List String → String
+  | ["gi", steps, rev, build] =>
+    match vTok steps, vTok rev, vTok build with
+    | some steps, some rev, some build => showPy PyU.vShow (C04Gen.initG steps rev build)
+    | _, _, _ => "bad-op"
+  | ["gtr", form, steps, rev, build, c2, req, rnd] =>
+    match vTok steps, vTok rev, vTok build, vTok c2, vTok req, randTok rnd with
+    | some steps, some rev, some build, some c2, some req, some rand =>
+      match C04Gen.initG steps rev build with
+      | .error e => "exc " ++ e.name
+      | .ok self =>
+        match C04Gen.transformG rand self c2 req with
+        | .ok r =>
+          let http := if form == "S" then responseOf r else r
+          s!"T {PyU.vShow r} R {showA PyU.vShow (C04Gen.recoverG self http)}"
+        | e => showA PyU.vShow e
+    | _, _, _, _, _, _ => "bad-op"
+  | ["gr", steps, rev, build, http] =>
+    match vTok steps, vTok rev, vTok build, vTok http with
+    | some steps, some rev, some build, some http =>
+      match C04Gen.initG steps rev build with
+      | .error e => "exc " ++ e.name
+      | .ok self => showA PyU.vShow (C04Gen.recoverG self http)
+    | _, _, _, _ => "bad-op"
+  | ["pyu", op, a] =>
+    match vTok a with
+    | some a =>
+      match op with
+      | "nbenc" => showPy PyU.vShow (Gen.PyC2T.netbios_encode a)
+      | "nbdec" => showPy PyU.vShow (Gen.PyC2T.netbios_decode a)
+      | "p32be" => showPy PyU.vShow (Gen.PyC2T.p32be a)
+      | _ => "bad-op"
+    | none => "bad-op"
+  | ["pyu", "xor", a, b] =>
+    match vTok a, vTok b with
+    | some a, some b => showPy PyU.vShow (Gen.PyC2T.xor a b)
+    | _, _ => "bad-op"
+  | _ => "bad-op"
+
 def step : List String → String
+  | "gi" :: rest => gstep ("gi" :: rest)
+  | "gtr" :: rest => gstep ("gtr" :: rest)
+  | "gr" :: rest => gstep ("gr" :: rest)
+  | "pyu" :: rest => gstep ("pyu" :: rest)
   | "tr" :: form :: prog :: o :: m :: i :: rest =>
     match setup form prog, c2Tok o m i, reqToks rest with
     | some (t, server, p), some c2, some (req, [rnd]) =>
